@@ -509,6 +509,9 @@ func GenVulns(t *rapid.T, ix *Index, cfg GenConfig) []OSV {
 type Levels struct {
 	Default  string            `json:"default"` // major | minor | patch | none
 	Packages map[string]string `json:"packages,omitempty"`
+	// FromStrings builds the configuration through upgrade.NewConfigFromStrings (the textual
+	// form "pkg:level" the command line uses) instead of Config.Set.
+	FromStrings bool `json:"from_strings,omitempty"`
 }
 
 // Level returns the level configured for a package.
@@ -536,6 +539,18 @@ func levelConst(s string) upgrade.Level {
 
 // Config converts to the implementation's configuration type.
 func (l Levels) Config() upgrade.Config {
+	if l.FromStrings {
+		strs := []string{l.Level("")}
+		names := make([]string, 0, len(l.Packages))
+		for k := range l.Packages {
+			names = append(names, k)
+		}
+		sort.Strings(names)
+		for _, k := range names {
+			strs = append(strs, k+":"+l.Packages[k])
+		}
+		return upgrade.NewConfigFromStrings(strs)
+	}
 	c := upgrade.NewConfig()
 	c.SetDefault(levelConst(l.Level("")))
 	names := make([]string, 0, len(l.Packages))
@@ -586,6 +601,7 @@ func GenLevels(t *rapid.T, ix *Index) Levels {
 		}
 		l.Packages[p.Name] = genLevel(t, fmt.Sprintf("level.o%d", i), [4]int{30, 25, 25, 20})
 	}
+	l.FromStrings = Pct(t, "level.from_strings") < 50
 	return l
 }
 
